@@ -51,9 +51,11 @@
 //!   (1, 2, 7, fill 5, 64, 300, fill all, 4096, 65536, 13, 70000, fill 1, 5, 65536) and retries `Interrupted`.
 //! * `C:<container header>` — Cram, Variant::Primary only: one per container (length, reference context, counts,
 //!   landmarks), before the container's records.
-//! * `I:<Debug of the index>` — index readers: ONE element for Bai / Csi / Tbi / Gzi / Fai / Crai; one element PER
-//!   RECORD for FastqFai (its reader is record-wise), for `Variant::Eager` of Crai (`read_record`) and for the
-//!   FASTA / FASTQ `Variant::Indexer` (one per `index_record()`).
+//! * `I:<Debug of the index>` — index readers: ONE element (`read_index()`) for Bai / Csi / Tbi / Gzi / Fai; one
+//!   element PER RECORD for FastqFai and Crai (record-wise `read_record`; for Crai `read_index()` is
+//!   `Variant::Eager`, because it fails on every index with more than one record on the pinned tree) and for the
+//!   FASTA / FASTQ `Variant::Indexer` (one per `index_record()`). FastqFai lines that do not parse as a record
+//!   give `I:!parse:<error>:<line>`.
 //! * `A:<fnv hex>:<len>` and `A-ERR:<accessor>:<ErrorKind>` — only with `deep = true`, after each record: digest of
 //!   everything the deep walk observed, then one element per accessor that returned an error (values, not panics).
 //!
@@ -64,10 +66,13 @@
 //!
 //! `Variant::Primary` = the lazy record API where there is one (`read_record(&mut Record)` for SAM / BAM / VCF / BCF /
 //! FASTQ / BED, `read_line(&mut Line)` for GFF / GTF, `read_definition` + `read_sequence` for FASTA,
-//! `read_container` → slices → records for CRAM, `read_index` for indexes). `Variant::Eager` = `read_record_buf`
-//! (SAM, BAM, VCF, BCF), `records()` (CRAM, FASTA, FASTQ), `line_bufs()` (GFF, GTF), `read_record` (CRAI).
-//! `Variant::Indexer` = `fasta::io::Indexer` / `fastq::io::Indexer`. `Kind::variants()` lists what exists;
-//! asking for a variant a kind does not have gives the Primary one.
+//! `read_container` → slices → records for CRAM, `read_index` for indexes, `read_record` for CRAI / FASTQ-FAI).
+//! `Variant::Eager` = `read_record_buf` (SAM, BAM, VCF, BCF), `records()` (CRAM, FASTA, FASTQ), `line_bufs()`
+//! (GFF, GTF), `read_index()` (CRAI; not listed in `variants()`, see above). `Variant::Indexer` =
+//! `fasta::io::Indexer` / `fastq::io::Indexer`. `Kind::variants()` lists the variants under which every item of
+//! `items()` reads to END on the pinned tree; asking for a variant a kind does not have gives the Primary one.
+//! Lazy and eager R elements are NOT comparable with each other for SAM (lazy integers are all `Int32`) and CRAM
+//! (the lazy record shows `RG` twice); within one variant they are stable.
 //!
 //! # Write histories
 //!
